@@ -316,7 +316,7 @@ impl IJudge<'_> {
                     let z = &t.zones[zi];
                     format!("{}|honest|{}|{}", a.detail, b.world.honest(&last.qname, last.qtype, true).kind, if !z.spec.signed { "unsigned" } else if z.spec.nsec3.is_some() { "nsec3" } else { "nsec" })
                 } else if min_steps.len() > 1 {
-                    format!("{}|via-history|{}", a.detail, if last.faults.is_empty() { "honest-step-after-tampering" } else { "tampered-step" })
+                    format!("{}|via-history:{}|{}", a.detail, crate::fault_kinds(min_steps.iter().flat_map(|s| s.faults.iter().map(|f| f.kind.as_str()))), if last.faults.is_empty() { "honest-step-after-tampering" } else { "tampered-step" })
                 } else if last.faults.len() > 1 {
                     format!("{}|multi-fault:{}", a.detail, crate::fault_kinds(last.faults.iter().map(|f| f.kind.as_str())))
                 } else if (a.rule == "secure-despite-broken-link" && matches!(a.detail.as_str(), "dnskey" | "own-rrsig:dnskey")) || (a.rule == "secure-rrset-incomplete" && a.detail == "dnskey") {
